@@ -367,3 +367,6 @@ CLAIMED["C03"]["text"] += (" Tenth round: known finding C03-plain-key-spelled-li
 CLAIMED["C08"]["text"] += (" Eleventh round: a rule-set of nothing but flags that say nothing is refused like {} (fix de3c65c); a null example under nullable next to a type reference or an or list is accepted (fix d925ea9: "
                            "the checker's list of alternatives mirrors the validator's; model check_links and the spec's type_matches / example_obeys follow).")
 CLAIMED["C09"]["text"] += (" Eleventh round: key-shortcut types that name themselves next to a terminating alternative are accepted (fix 82938c5).")
+CLAIMED["C18"]["text"] += (" Last round: C18_enum_comments_are_ignored (EnumProofs.enum_comments_are_blanks) - for every enum rule text, if the text with its // and /* */ comments blanked out is accepted, the text with the "
+                           "comments is accepted too and delivers the same value, item and array events with the same spans: Values reads the same literals in the same order (comments before the bracket and an "
+                           "unterminated block comment are refused, as the library does; the equality of the literal slices themselves is shown on a kernel-checked example, not as a theorem).")
